@@ -103,6 +103,43 @@ def grid(quick):
                 if quick and (n + len(fam) + nvec + len(batch)) % 2:
                     continue
                 cells.append(cell(n, fam, n, batch=batch, nvec=nvec, dtype="f32", scale=1e2))
+    # (9) mixed breakdown: ONE degenerate member / start vector among generic ones, at every position.  degenerate = start
+    #     vector an exact eigenvector, matrix an exact multiple of the identity, or Krylov dimension k < n (members break down
+    #     at DIFFERENT steps).  Every generic member must still get its full decomposition (per-member predicates).
+    for n in ([6, 8] if quick else [4, 6, 8, 12]):
+        for batch in ([2], [3], [2, 2]):
+            B = 1
+            for x in batch:
+                B *= x
+            for pos in range(B):
+                for kind in ("eigvec", "scalar", "lowk", "lowk2"):
+                    for nvec in (1, 2):
+                        if quick and (n + pos + nvec + len(kind)) % 2 and kind != "eigvec":
+                            continue
+                        gen = ["uniform", "kappa10", "intgram"]
+                        fams = [gen[(b + pos) % 3] for b in range(B)]
+                        c = None
+                        if kind == "eigvec":
+                            c = cell(n, fams, n, batch=batch, nvec=nvec, start="mixed-eig")
+                            c["eig_at"] = [[pos, (pos + n) % nvec]]
+                        elif kind == "scalar":
+                            fams[pos] = "scalar"
+                            c = cell(n, fams, n, batch=batch, nvec=nvec)
+                        elif kind == "lowk":
+                            fams[pos] = ["rank1", "few2", "rank2", "few3"][(pos + n) % 4]
+                            c = cell(n, fams, n + (pos % 2), batch=batch, nvec=nvec)
+                        else:
+                            fams[pos] = "few2"
+                            fams[(pos + 1) % B] = "few3"
+                            c = cell(n, fams, n, batch=batch, nvec=nvec)
+                        cells.append(c)
+        # several start vectors of ONE matrix, one of them an eigenvector, at every position
+        for nvec in (2, 3):
+            for j in range(nvec):
+                for fam in ("uniform", "kappa10"):
+                    c = cell(n, fam, n, nvec=nvec, start="mixed-eig")
+                    c["eig_at"] = [[0, j]]
+                    cells.append(c)
     # n = 1 (every budget gives num_iter = 1)
     for mi in (1, 2, 3):
         cells.append(cell(1, "uniform", mi))
